@@ -101,6 +101,8 @@ type PathResult struct {
 	funcs      map[*ssa.Function]int
 	panicStack []string
 	Events     []string
+	SampleModel map[string]string
+	sampleNd   []nondetVar
 	PCSummary  int
 	strBounded bool
 	Nondets    []string
@@ -370,6 +372,14 @@ type Report struct {
 	Scripts     []string // sample of solver scripts for cross-checking
 	Assertions  int
 	Fallbacks   int
+	PassSamples []PassSample
+}
+
+// PassSample is a completed path without violation together with a model of its path condition.
+type PassSample struct {
+	Trace []Decision
+	Model map[string]string
+	nd    []nondetVar
 }
 
 type PathSample struct {
@@ -389,10 +399,15 @@ type ExploreOpts struct {
 	FallbackMS int
 	StopFirst bool // stop at first violation per key
 	KeepScripts int
+	SampleModels int
 }
 
 // RunPath executes one path with the given decision prefix.
 func RunPath(ld *Loaded, h Harness, cfg *Config, solver *Solver, prefix []int, replay bool) (*PathResult, [][]int) {
+	return runPath(ld, h, cfg, solver, prefix, replay, false)
+}
+
+func runPath(ld *Loaded, h Harness, cfg *Config, solver *Solver, prefix []int, replay bool, wantModel bool) (*PathResult, [][]int) {
 	pc := &pathCtl{prefix: prefix, replay: replay}
 	solver.Reset()
 	it := newInterpreter(ld, cfg, solver, pc)
@@ -437,6 +452,15 @@ func RunPath(ld *Loaded, h Harness, cfg *Config, solver *Solver, prefix []int, r
 		res.noteFunc(fn)
 		call(it, nil, token.NoPos, fn, nil)
 	}()
+	if wantModel && res.End == "done" && len(res.Violations) == 0 && cfg.replayModel == nil {
+		if m := it.model(); m != nil || len(it.nondets) == 0 {
+			res.SampleModel = m
+			if res.SampleModel == nil {
+				res.SampleModel = map[string]string{}
+			}
+			res.sampleNd = append([]nondetVar(nil), it.nondets...)
+		}
+	}
 	// unwind every other goroutine
 	it.cur = main
 	it.wakeNextForAbort()
@@ -519,7 +543,7 @@ func Explore(ld *Loaded, h Harness, cfg *Config, opts ExploreOpts) *Report {
 				active++
 				mu.Unlock()
 
-				res, pending := RunPath(ld, h, cfg, solver, prefix, false)
+				res, pending := runPath(ld, h, cfg, solver, prefix, false, opts.SampleModels > 0)
 
 				mu.Lock()
 				active--
@@ -558,6 +582,9 @@ func Explore(ld *Loaded, h Harness, cfg *Config, opts ExploreOpts) *Report {
 						ev = ev[:12]
 					}
 					rep.Samples = append(rep.Samples, PathSample{Decisions: res.Decisions, End: res.End, Reached: res.Reached, Events: ev, Nondets: res.Nondets})
+				}
+				if res.SampleModel != nil && len(rep.PassSamples) < opts.SampleModels {
+					rep.PassSamples = append(rep.PassSamples, PassSample{Trace: res.Decisions, Model: res.SampleModel, nd: res.sampleNd})
 				}
 				if len(rep.Scripts) < opts.KeepScripts && solver.Stats.Queries > 0 {
 					rep.Scripts = append(rep.Scripts, solver.Script())
